@@ -32,6 +32,8 @@ type emitter struct {
 	hung    map[int]bool
 	lastHung int
 	muted   bool
+	inCall   bool
+	deferred []string
 }
 
 func newEmitter(path string) *emitter {
@@ -100,7 +102,13 @@ func (e *emitter) distinct(key string) {
 
 // hfail is a judgement the harness itself makes (panic, watchdog, argument mutation ...).
 func (e *emitter) hfail(tag string, format string, a ...interface{}) {
-	e.line("HFAIL %s %s", tag, strings.ReplaceAll(fmt.Sprintf(format, a...), "\n", " "))
+	l := fmt.Sprintf("HFAIL %s %s", tag, strings.ReplaceAll(fmt.Sprintf(format, a...), "\n", " "))
+	if e.inCall {
+		// inside an isolated call the event line is still open: emit after it is closed
+		e.deferred = append(e.deferred, l)
+		return
+	}
+	e.line("%s", l)
 }
 
 func hx(h u.Hash) string { return hex.EncodeToString(h[:]) }
